@@ -91,7 +91,7 @@ Blame ==
   @@ "oe.actor.clone" :> {"C15"} @@ "oe.actor.downgrade" :> {"C15"} @@ "oe.actor.upgrade" :> {"C15"}
   @@ "oe.actor.sender" :> {"C15"} @@ "oe.actor.caller" :> {"C15"} @@ "oe.actor.weak_sender" :> {"C15"}
   @@ "oe.actor.weak_caller" :> {"C15"} @@ "oe.actor.to_addr" :> {"C15", "C17"} @@ "oe.actor.detach" :> {"C17"}
-  @@ "oe.actor.from_registry" :> {"C08"} @@ "oe.actor.register" :> {"C08"} @@ "oe.actor.replace" :> {"C08"}
+  @@ "oe.actor.setup" :> {"C08", "C14"} @@ "oe.actor.from_registry" :> {"C08"} @@ "oe.actor.register" :> {"C08"} @@ "oe.actor.replace" :> {"C08"}
   @@ "oe.actor.unregister" :> {"C08"} @@ "oe.actor.try_from_registry" :> {"C08"} @@ "oe.actor.already_running" :> {"C08"}
   @@ "oe.res.from_registry" :> {"C08"} @@ "oe.res.setup" :> {"C08"} @@ "oe.res.register" :> {"C08", "C14"} @@ "oe.res.replace" :> {"C08"}
   @@ "oe.res.unregister" :> {"C08"} @@ "oe.res.try_from_registry" :> {"C08", "C14"} @@ "oe.res.already_running" :> {"C08"}
